@@ -630,6 +630,22 @@ func (w *World) genDlgAdd(st *state.StateDB) *TxInfo {
 	accepting := func(v *state.Validator) bool {
 		return v.AcceptDelegation == params.AcceptDelegation && !v.Expelled
 	}
+	if w.Sc.Limits && w.R.Intn(3) == 0 {
+		// fill the hub validator up to (and beyond) MaxDelegationForValidator: prefer users that do not
+		// delegate to it yet
+		if hub := st.GetValidatorByMainAddr(w.hub); hub != nil && accepting(hub) {
+			start := w.R.Intn(w.Sc.Users)
+			for k := 0; k < w.Sc.Users; k++ {
+				cand := (start + k) % w.Sc.Users
+				if a := w.UA(cand); !hub.Delegations.Exist(a) && !st.PendingRelationshipExist(a, w.hub) {
+					u = cand
+					break
+				}
+			}
+			val := youPlus(w.R, 10, 12)
+			return w.stk(u, staking.DelegationAdd, &staking.TxDelegation{Validator: w.hub, Value: val}, gasStk, "stk.dlgadd", "valid?:hub", val)
+		}
+	}
 	variant := "valid?"
 	var v *state.Validator
 	value := youPlus(w.R, 10, 200)
